@@ -118,36 +118,42 @@ class RefState(object):
         model does not say which, so unbound look-alikes become undefined."""
         sc = self.sc[s]
         for cand in LOOKALIKES.get(prefix, ()):
-            if cand not in sc.bind:
+            if cand not in sc.bind or cand in sc.alias:
+                # unbound, or bound only as an alias (not a registered prefix): the
+                # statement does not say what it denotes from now on
                 sc.bind[cand] = AMBIG
 
     def bind_prefix(self, s, prefix, uri):
+        """a declaration (explicit, or implicit through a QualifiedName) of prefix -> uri in
+        scope s.  First binding wins; a clash leaves the prefix alone (the implementation
+        mints a fresh one).  Whatever happens, the uri ends up registered in the scope."""
         sc = self.sc[s]
         cur = sc.bind.get(prefix)
         if cur is None:
             if uri in sc.reg:
                 sc.alias.add(prefix)
-            else:
-                sc.reg.add(uri)
             sc.bind[prefix] = uri
-        elif cur is AMBIG:
+        elif cur is AMBIG or cur == uri:
             pass
-        elif cur == uri:
-            pass
-        else:
-            if prefix in sc.alias:
-                sc.bind[prefix] = AMBIG
-            elif uri not in sc.reg:
-                sc.reg.add(uri)
-                self._mark_minted(s, prefix)
-            # uri already registered under another prefix: nothing changes
+        elif prefix in sc.alias:
+            # an alias is not a registered prefix: the statement does not say whether a
+            # later declaration re-points it
+            sc.bind[prefix] = AMBIG
+        elif uri not in sc.reg:
+            self._mark_minted(s, prefix)
+        sc.reg.add(uri)
 
-    def resolve_prefix(self, s, prefix):
+    def resolve_prefix(self, s, prefix, use=True):
+        s0 = s
         while s is not None:
             cur = self.sc[s].bind.get(prefix)
             if cur is AMBIG:
                 raise NotEnabled("prefix-ambiguous")
             if cur is not None:
+                if use and s != s0:
+                    # (c) forces it: the child hands out 'prefix:local' for this uri, so the
+                    # prefix must keep denoting it in the child from now on
+                    self.bind_prefix(s0, prefix, cur)
                 return cur
             s = self.parent(s)
         raise NotEnabled("prefix-undeclared")
@@ -160,13 +166,37 @@ class RefState(object):
         raise NotEnabled("no-default")
 
     def covered(self, s, uri):
-        while s is not None:
-            sc = self.sc[s]
-            for p, u in sc.bind.items():
-                if u is not AMBIG and uri.startswith(u):
-                    return True
-            s = self.parent(s)
-        return False
+        """can a full URI be turned into a qualified name in scope s (some visible
+        namespace is a prefix of it)?  Updates the model for the inheritance it may cause."""
+        s0 = s
+        own = False
+        sc0 = self.sc[s0]
+        for p, u in sc0.bind.items():
+            if u is not AMBIG and uri.startswith(u):
+                own = True
+        if sc0.default is not None and self.default_touched.get(s0) and uri.startswith(sc0.default):
+            own = True
+        if own:
+            return True
+        par = self.parent(s0)
+        if par is None:
+            return False
+        scp = self.sc[par]
+        cands = [p for p, u in scp.bind.items() if u is not AMBIG and uri.startswith(u)]
+        dflt = scp.default is not None and self.default_touched.get(par) and uri.startswith(scp.default)
+        if not cands and not dflt:
+            return False
+        # the implementation compacts with one of the parent's namespaces and thereby uses
+        # (inherits) it in the child; the model does not say which one
+        if dflt and sc0.default is None:
+            sc0.default = scp.default
+        if len(cands) == 1 and not dflt:
+            self.bind_prefix(s0, cands[0], scp.bind[cands[0]])
+        else:
+            for p in cands:
+                if p not in sc0.bind:
+                    sc0.bind[p] = AMBIG
+        return True
 
     def use_name(self, s, name):
         """meaning of handing `name` to the API in scope s (updates implicit bindings);
@@ -185,15 +215,6 @@ class RefState(object):
         elif sp[0] in ("u", "i"):
             if not self.covered(s, uri):
                 raise NotEnabled("uri-not-coverable")
-            if self.sc[s].default is None:
-                # the implementation may compact the URI with the inherited default
-                # namespace, which is a use (adoption) of that default by this scope
-                try:
-                    d = self.resolve_default(s)
-                except NotEnabled:
-                    d = None
-                if d is not None and uri.startswith(d):
-                    self.sc[s].default = d
         elif sp[0] == "q":
             prefix = sp[1]
             sc = self.sc[s]
@@ -303,12 +324,7 @@ def apply(st, op, values=None):
         elif sp[0] == "q":
             model.bind_prefix(slot, sp[1], U[name[0]])
         elif sp[0] in ("u", "i"):
-            try:
-                d = model.resolve_default("D")
-            except NotEnabled:
-                d = None
-            if d is not None and uri.startswith(d):
-                model.sc[slot].default = d
+            model.covered(slot, uri)
         st.ref = model
         b = st.doc.bundle(st.spell(name))
         st.bundles[slot] = b
